@@ -181,3 +181,11 @@ def mutating_effects(effects):
 def leaf_site(leaf):
     i = leaf.info
     return "%s @ %s" % (i.get("fn"), loc(i.get("span")))
+
+
+def time_arith(leaf):
+    """Overflow-guarded integer arithmetic on symbolic operands performed on this path (timestamps are the only symbolic
+    integers in the selection / combination code).  Selecting or combining by time must COMPARE timestamps, not subtract
+    them: the quantifiers include near-extreme i64 values (Time(i64::MIN) is the crate's own 'no data yet' seed), where a
+    difference overflows - a panic in debug builds, a wrong order in release builds."""
+    return [a for a in leaf.state.arith]
